@@ -1,3 +1,4 @@
+import Sparrow.Proofs.BakeComposed
 import Sparrow.Proofs.UniversalFnEquiv
 import Sparrow.Proofs.StokesFnEquiv
 import Sparrow.Proofs.StokesLemmas
@@ -176,3 +177,47 @@ theorem patch2patchFFUniversal_eq_ffMatrix (thres cut : ℝ)
   Sparrow.patch2patchFFUniversal_eq_ffMatrix thres cut nus pts nv nrm areas nvis vis jp1 jp2 jc1 jc2 a b
 
 end Sparrow.Props.C05.Universal
+
+namespace Sparrow.Props.C05.Composed
+open Sparrow Sparrow.Generated.BakeGlue Sparrow.Generated.BakeKernels Sparrow.Generated.UniversalFn Sparrow.Generated.VisibilityFn
+
+/-- **C05 "vanishes for pairs that cannot see each other", about the composed regenerated text**: a pair whose visibility entry is
+    false has a stored form factor of exactly 0 — for every visibility test, every scene -/
+theorem bakeGeometry_ff_invisible_zero
+    (vis2 : (Nat → Nat → ℝ) → (Nat → Nat → ℝ) → (Nat → Nat → Nat → ℝ) → Nat → Nat → Bool)
+    (thres cut : ℝ) (nus : (Nat → Nat → ℝ) → (Nat → ℝ) → (Nat → Nat → ℝ) → (Nat → ℝ) → Nat → ℝ) (nv : Nat)
+    (jp1 jp2 : Nat → Nat → ℝ) (jc1 jc2 : Nat → Nat → Nat)
+    (P : Nat) (pc pn : Nat → Nat → ℝ) (pp : Nat → Nat → Nat → ℝ) (pa : Nat → ℝ) (ptw : Nat → Nat)
+    (hasM : Bool) (W nIn D T : Nat) (dIn dOut : Nat → Nat → Nat → ℝ) (bidx : Nat → Nat) (brdf : Nat → Nat → Nat → Nat → ℝ)
+    (fnone : Bool) (B : Nat) (att : Option (Nat → ℝ)) (junk : Nat → Nat → Nat) (a b : Nat)
+    (h : vis2 pc pn pp a b = false) :
+    (bakeGeometry vis2 (ffuT thres cut nus nv jp1 jp2 jc1 jc2) P pc pn pp pa ptw hasM W nIn D T dIn dOut bidx brdf fnone B att junk).2.2.1 a b
+      = 0 :=
+  Sparrow.bakeGeometry_ff_invisible_zero vis2 thres cut nus nv jp1 jp2 jc1 jc2 P pc pn pp pa ptw hasM W nIn D T dIn dOut bidx brdf fnone B att junk a b h
+
+/-- a visible pair holds the dispatched form factor of its two patches -/
+theorem bakeGeometry_ff_visible
+    (vis2 : (Nat → Nat → ℝ) → (Nat → Nat → ℝ) → (Nat → Nat → Nat → ℝ) → Nat → Nat → Bool)
+    (thres cut : ℝ) (nus : (Nat → Nat → ℝ) → (Nat → ℝ) → (Nat → Nat → ℝ) → (Nat → ℝ) → Nat → ℝ) (nv : Nat)
+    (jp1 jp2 : Nat → Nat → ℝ) (jc1 jc2 : Nat → Nat → Nat)
+    (P : Nat) (pc pn : Nat → Nat → ℝ) (pp : Nat → Nat → Nat → ℝ) (pa : Nat → ℝ) (ptw : Nat → Nat)
+    (hasM : Bool) (W nIn D T : Nat) (dIn dOut : Nat → Nat → Nat → ℝ) (bidx : Nat → Nat) (brdf : Nat → Nat → Nat → Nat → ℝ)
+    (fnone : Bool) (B : Nat) (att : Option (Nat → ℝ)) (junk : Nat → Nat → Nat) (a b : Nat) (ha : a < P) (hb : b < P)
+    (h : vis2 pc pn pp a b = true) :
+    (bakeGeometry vis2 (ffuT thres cut nus nv jp1 jp2 jc1 jc2) P pc pn pp pa ptw hasM W nIn D T dIn dOut bidx brdf fnone B att junk).2.2.1 a b
+      = universalFormFactor thres cut nus (fun k q => pp a k q) nv (fun q => pn a q) (pa a) (fun k q => pp b k q) nv (fun q => pn b q)
+          jp1 jp2 jc1 jc2 :=
+  Sparrow.bakeGeometry_ff_visible vis2 thres cut nus nv jp1 jp2 jc1 jc2 P pc pn pp pa ptw hasM W nIn D T dIn dOut bidx brdf fnone B att junk a b ha hb h
+
+/-- consequently a pair on or below the diagonal is never listed and its stored form factor is 0 (only `i < j` is computed) -/
+theorem bakeGeometry_ff_lower_zero
+    (thr eta thres cut : ℝ) (nus : (Nat → Nat → ℝ) → (Nat → ℝ) → (Nat → Nat → ℝ) → (Nat → ℝ) → Nat → ℝ) (nv : Nat)
+    (jp1 jp2 : Nat → Nat → ℝ) (jc1 jc2 : Nat → Nat → Nat)
+    (P : Nat) (pc pn : Nat → Nat → ℝ) (pp : Nat → Nat → Nat → ℝ) (pa : Nat → ℝ) (ptw : Nat → Nat)
+    (hasM : Bool) (W nIn D T : Nat) (dIn dOut : Nat → Nat → Nat → ℝ) (bidx : Nat → Nat) (brdf : Nat → Nat → Nat → Nat → ℝ)
+    (fnone : Bool) (B : Nat) (att : Option (Nat → ℝ)) (junk : Nat → Nat → Nat) (a b : Nat) (h : b ≤ a) :
+    (bakeGeometry (vis2T thr eta P nv) (ffuT thres cut nus nv jp1 jp2 jc1 jc2) P pc pn pp pa ptw hasM W nIn D T dIn dOut bidx brdf fnone B
+      att junk).2.2.1 a b = 0 :=
+  Sparrow.bakeGeometry_ff_lower_zero thr eta thres cut nus nv jp1 jp2 jc1 jc2 P pc pn pp pa ptw hasM W nIn D T dIn dOut bidx brdf fnone B att junk a b h
+
+end Sparrow.Props.C05.Composed
